@@ -61,6 +61,12 @@ func echoFrame(nic mon.NIC, p *pingSpec, typ4, typ6 byte, id uint16, truncate bo
 }
 
 func c19Scenario(c *wk.Ctx, idx int64, r *rand.Rand) (nontrivial string, viol bool) {
+	// the scenarios also run as a sub-stream of C01 and C08 (Parse / the packet loop must not panic whatever pings are pending):
+	// there only panics are reported, under that property; the ping verdicts always belong to C19
+	attr := "C19"
+	if c.Prop == "C01" || c.Prop == "C08" {
+		attr = c.Prop
+	}
 	nic := mon.DefaultNIC()
 	rec := mon.NewRecorder(8)
 	s, err := mon.NewSession(rec, nic, 30*time.Minute, 60*time.Minute, 24*time.Hour)
@@ -119,7 +125,7 @@ func c19Scenario(c *wk.Ctx, idx int64, r *rand.Rand) (nontrivial string, viol bo
 	}
 	fail := func(key, detail string) {
 		if !viol {
-			c.Viol(key, detail, cs())
+			c.ViolP("C19", key, detail, cs())
 		}
 		viol = true
 	}
@@ -156,8 +162,9 @@ func c19Scenario(c *wk.Ctx, idx int64, r *rand.Rand) (nontrivial string, viol bo
 						}
 					}
 					for k := 0; k < n; k++ {
-						if c.Guard("C19", func() any { return cs() }, func() { s.Parse(append([]byte(nil), reply...)) }) != nil {
-							viol = true
+						if c.Guard(attr, func() any { return cs() }, func() { s.Parse(append([]byte(nil), reply...)) }) != nil {
+							// Parse panicked while notifying the waiter: the package level waiter table may stay locked
+							c.Restart()
 						}
 					}
 					immediate++
@@ -255,7 +262,9 @@ func c19Scenario(c *wk.Ctx, idx int64, r *rand.Rand) (nontrivial string, viol bo
 			time.Sleep(d)
 		}
 		synctest.Wait()
-		c.Guard("C01", func() any { return cs() }, func() { s.Parse(a.frame) })
+		if c.Guard(attr, func() any { return cs() }, func() { s.Parse(a.frame) }) != nil {
+			c.Restart() // see above
+		}
 		synctest.Wait()
 	}
 	if d := maxT + time.Second - time.Since(t0); d > 0 {
@@ -318,10 +327,12 @@ func c19Scenario(c *wk.Ctx, idx int64, r *rand.Rand) (nontrivial string, viol bo
 	return fmt.Sprintf("n=%d %v", n, ks), viol
 }
 
-func runC19(c *wk.Ctx) {
-	n := c.N(3_000, 200_000)
+func runC19(c *wk.Ctx) { runPingStream(c, c.N(3_000, 200_000), 0) }
+
+// runPingStream runs n ping scenarios (case indexes base+1..).
+func runPingStream(c *wk.Ctx, n, base int64) {
 	for i := int64(0); i < n; i++ {
-		idx := i + 1
+		idx := base + i + 1
 		if !c.Mine(idx) {
 			continue
 		}
